@@ -15,6 +15,7 @@
 #include "promotiontraits.hh"
 #include "dotproduct.hh"
 #include "boundschecking.hh"
+#include "typetraits.hh"
 
 namespace Dune {
 
@@ -451,9 +452,9 @@ namespace Dune {
     }
 
     //! Vector negation
-    derived_type operator- () const
+    AutonomousValue<V> operator- () const
     {
-      V result = asImp();
+      AutonomousValue<V> result = asImp();
       using idx_type = typename decltype(result)::size_type;
 
       for (idx_type i = 0; i < size(); ++i)
